@@ -148,6 +148,17 @@ class Prop(PropBase):
                         a2 = {"frac": -c["args"]["frac"]}
                     c["args2"] = a2
                     yield c
+        # reader calls: read(..., use_dask=True, chunks=...) of real-sample VDIF, complex DADA and a custom reader against the
+        # eager read, for chunk layouts that split the time axis and/or the sample axes
+        for _ in range(10 if quick else 200):
+            kind = rng.choice(["vdif", "vdif", "dada", "custom"])
+            total = {"vdif": 20000, "dada": 16000, "custom": 64}[kind]
+            n = min(rng.choice([1, 2, 7, 16, 33, 100]), total // 2)
+            off = rng.choice([0, 1, 5, rng.randrange(0, total - n)])
+            tparts = rng.choice(_partitions(n, rng, 2))
+            yield {"op": "reader", "kind": kind, "offset": off, "n": n, "tchunks": list(tparts), "split_samples": rng.random() < 0.5,
+                   "entry": rng.choice(["read", "dask_read"]), "default_chunks": rng.random() < 0.2,
+                   "sched": rng.choice(scheds), "chunks": [list(tparts)], "N": n}
         # random integer task graphs run by the real schedulers, completion order replayed in the model
         for _ in range(6 if quick else 60):
             n = rng.randint(3, 12)
@@ -293,6 +304,8 @@ class Prop(PropBase):
         np, da, dask = self.np, self.da, self.dask
         if c["op"] == "graph":
             return self._run_graph(c)
+        if c["op"] == "reader":
+            return self._run_reader(c)
         z = self._make(c)
         counter = [0]
         zd = self._dask_version(z, c["chunks"], counter)
@@ -399,6 +412,78 @@ class Prop(PropBase):
         out["sched_diff"] = self._close(comp2.data, comp.data, False)
         return out
 
+    def _run_reader(self, c):
+        np, da, pb = self.np, self.da, self.pb
+        import astropy.units as u
+        from astropy.time import Time
+        from dask.callbacks import Callback
+        from pathlib import Path
+        calls = [0]
+        if c["kind"] == "custom":
+            class R(pb.readers.BaseReader):
+                def _read_array(self, offset, n, /, **kwargs):
+                    calls[0] += 1
+                    k = np.arange(offset, offset + n, dtype=np.float64).reshape((n, 1, 1))
+                    return (k + 1000.0 * np.arange(6.0).reshape(3, 2)).astype(self.dtype)
+            r = R(shape=(64, 3, 2), dtype=np.float64, signal_type=pb.Signal, sample_rate=1 * u.kHz,
+                  start_time=Time("2020-01-01T00:00:00"))
+        else:
+            import pulsarbat.readers as pbr
+            f = Path(self._repo_root()) / "tests" / "data" / ("sample.vdif" if c["kind"] == "vdif" else "sample.dada")
+            r = pbr.BasebandReader(f)
+            orig = r._read_array
+
+            def counted(offset, n, /, **kw):
+                calls[0] += 1
+                return orig(offset, n, **kw)
+            r._read_array = counted
+        out = {"np_backing": "n"}
+        try:
+            z_np = r.read(c["offset"], c["n"])
+        except Exception as e:      # noqa
+            return {"skip": True, "why": type(e).__name__ + ": " + str(e)[:80]}
+        calls[0] = 0
+        kw = {}
+        if not c["default_chunks"]:
+            ch = [tuple(c["tchunks"])]
+            for ax, m in enumerate(r.sample_shape):
+                ch.append((1,) * m if c["split_samples"] and ax == 0 else (m,))
+            kw["chunks"] = tuple(ch)
+        ntasks = [0]
+
+        class Cnt(Callback):
+            def _posttask(self, key, result, dsk, state, worker_id):
+                ntasks[0] += 1
+        with Cnt():
+            z_d = r.read(c["offset"], c["n"], use_dask=True, **kw) if c["entry"] == "read" else r.dask_read(c["offset"], c["n"], **kw)
+        out["lazy_tasks"], out["lazy_count"] = ntasks[0], calls[0]
+        out["res_dask"] = isinstance(z_d.data, da.Array)
+        out["attrs_lazy"] = bool(z_d.shape == z_np.shape and z_d.dtype == z_np.dtype)
+        if out["res_dask"] and kw:
+            out["chunks_honoured"] = bool(tuple(z_d.data.chunks[0]) == tuple(c["tchunks"]))
+        try:
+            comp = z_d.compute(**self._sched(c["sched"]))
+        except Exception as e:      # noqa
+            out["compute_err"] = type(e).__name__ + ": " + str(e)[:80]
+            return out
+        out["comp_backing"] = "d" if isinstance(comp.data, da.Array) else "n"
+        out["same_attrs"] = bool(type(comp) is type(z_np) and comp.shape == z_np.shape and comp.dtype == z_np.dtype
+                                 and comp.sample_rate == z_np.sample_rate and self._same_time(comp.start_time, z_np.start_time)
+                                 and all(getattr(comp, a, None) == getattr(z_np, a, None) for a in ("center_freq", "freq_align", "chan_bw")))
+        out["diff"] = self._close(comp.data, z_np.data, False)
+        other = "threads" if c["sched"] != "threads" else "sync"
+        out["sched_diff"] = self._close(z_d.compute(**self._sched(other)).data, comp.data, False)
+        out["after_count"] = 1
+        return out
+
+    @staticmethod
+    def _same_time(a, b):
+        return (a is None and b is None) or (a is not None and b is not None and abs((a - b).to_value("s")) < 1e-12)
+
+    def _repo_root(self):
+        import os
+        return os.environ.get("PBVERIF_REPO", "/repo")
+
     def _run_graph(self, c):
         dask = self.dask
         from dask.callbacks import Callback
@@ -492,6 +577,10 @@ class Prop(PropBase):
             if code.get("lazy_count", 0) != 0:
                 return f"building the pb.fft graph materialised the input ({code['lazy_count']} block reads)"
             return code.get("diff") and f"pb.fft.{c['args']['fn']}: {code['diff']} (chunks {c['chunks']})"
+        if c["op"] == "reader":
+            c = dict(c, cls=c["kind"] + " reader", op=f"{c['entry']}({c['offset']}, {c['n']}, chunks={'default' if c['default_chunks'] else c['tchunks']})")
+            if code.get("chunks_honoured") is False:
+                return f"{c['op']}: the requested time chunks were not honoured"
         if not code.get("res_dask"):
             return f"{c['op']} on a Dask-backed {c['cls']} returned an eager result"
         if code.get("lazy_count", 0) != 0:
